@@ -10,7 +10,7 @@
    every waiter ungrantable in the final state.  C12_eventually (liveness over whole histories) is not proved.
    Refuted: C12_rollback_blocks_refuted (known finding: a rolled-back job keeps the inner slot of its step). *)
 From Coq Require Import List Bool ZArith NArith Lia.
-From SF Require Import Base.Str Hardware.Model Hardware.Proofs Sched.Model Sched.Proofs Sched.History Sched.Quiesce Sched.Witness Sched.Examples.
+From SF Require Import Base.Str Hardware.Model Hardware.Proofs Sched.Model Sched.Proofs Sched.History Sched.Quiesce Sched.Eventually Sched.Stacked Sched.StackedHist Sched.StackedQuiesce Sched.Witness Sched.Examples.
 Import ListNotations.
 Local Open Scope string_scope. Local Open Scope list_scope.
 
@@ -95,6 +95,31 @@ Theorem C12_quiescent : forall locs,
   (length v' < n)%nat /\ attempt st' job cands reqs n chosen = Ok (st', map chain_name v', false).
 Proof. exact round_quiescent. Qed.
 
+(* C12_quiescent_stacked — the same for locations that are chains of stacked levels (hardware or slot levels, outer or
+   inner; domain, [conformant2] and [Inv2] as for C10_capacity_stacked in Props/C10.v, [R] the ghost record of per-level
+   reservations): along a wake-up round the ledger of every level and the job lists that _get_running_jobs counts only
+   grow, validity of every level is antitone in them, so a request short of valid locations at its turn is still short
+   at the end of the round.  This is about re-evaluation being stable; it does not say that "short of valid locations"
+   coincides with "not enough free capacity" on stacked slot levels — there it does not (C12_rollback_blocks_refuted). *)
+Theorem C12_quiescent_stacked : forall locs,
+  (forall l1 l2, In l1 locs -> In l2 locs -> lv_name l1 = lv_name l2 -> l1 = l2) ->
+  (forall l cap, In l locs -> lv_cap l = Some cap -> wfr cap /\ In "/" (mounts cap)) ->
+  forall st G R pre job cands reqs n chosen post st' s_i vn,
+  Inv2 locs st G R ->
+  conformant2 locs st R (pre ++ EAttempt job cands reqs n chosen :: post) ->
+  only_attempts (pre ++ EAttempt job cands reqs n chosen :: post) ->
+  run st (pre ++ EAttempt job cands reqs n chosen :: post) = Ok st' ->
+  run st pre = Ok s_i -> attempt s_i job cands reqs n chosen = Ok (s_i, vn, false) -> (length vn < n)%nat ->
+  forall v', valid_locations st' reqs job cands = Ok v' ->
+  (length v' < n)%nat /\ attempt st' job cands reqs n chosen = Ok (st', map chain_name v', false).
+Proof. exact round_quiescent2. Qed.
+Theorem C12_reachable_states_satisfy_Inv2 : forall locs,
+  (forall l1 l2, In l1 locs -> In l2 locs -> lv_name l1 = lv_name l2 -> l1 = l2) ->
+  (forall l cap, In l locs -> lv_cap l = Some cap -> wfr cap /\ In "/" (mounts cap)) ->
+  forall es st G R st', Inv2 locs st G R -> conformant2 locs st R es -> run st es = Ok st' ->
+  Inv2 locs st' (measured2 st R es G) (reservations st R es).
+Proof. exact inv2_run. Qed.
+
 (* every state reached by a conformant history satisfies the invariant the round starts from *)
 Theorem C12_reachable_states_satisfy_Inv : forall locs,
   (forall l1 l2, In l1 locs -> In l2 locs -> lv_name l1 = lv_name l2 -> l1 = l2) ->
@@ -133,6 +158,58 @@ Theorem C12_granted_are_waiters : forall ws st st' g,
   wake_round st ws = Ok (st', g) -> forall j, In j g -> exists w, In w ws /\ w_job w = j.
 Proof. exact wake_round_granted_in. Qed.
 
+(* ---------------------------------------------------------------------------------------------------------
+   C12_eventually_partial (flat domain of Props/C10.v; Sched/Eventually.v).
+   A PHASE from (st, W) — W = the pending requests, as evaluation events — is: a fireable/running job is notified a status
+   outside {FIREABLE, RUNNING}; then a full wake-up round: every request of W is evaluated once, in some order
+   ([Permutation order W]); it yields the new state and the requests still pending ([round_out]).  A continuation is a
+   sequence of phases ([phases_seq], with the history H it generates and its length k).
+   C12_phases_measure (the well-founded measure): #fireable/running + #pending decreases by exactly one per phase, so
+   after at most nact st + |W| terminal notifications nobody is fireable/running — under the fairness assumption that
+   every fireable/running job is eventually notified, the continuation reaches such an idle point — and pending requests
+   only leave W.
+   C12_eventually_partial: at an idle point reached by at least one phase of a conformant continuation, NO request for a
+   location l with declared hardware whose requirement fits l's total capacity is still pending: it has been granted.
+   Residue assumption, explicit: "fits" is cores rq <= cores cap, memory likewise, and for every mount point of rq:
+   measured residue (what du reported for released reservations so far, at any prefix of the history) + size <= capacity;
+   by C11_release the idle ledger is exactly 0 / 0 / that residue.
+   "partial": single candidate location with declared hardware (with several candidates the outcome depends on the Policy;
+   slot locations need the extra fact that no rolled-back job of the step is still listed); the fairness of asyncio's
+   delivery (that the round really happens) is exercised on the real scheduler (seeded mutants C12a, C12b). *)
+Theorem C12_phases_measure : forall locs st W H st' W' k,
+  phases_seq st W H st' W' k -> conformant locs st H ->
+  (nact st' + Z.of_nat (length W') + Z.of_nat k = nact st + Z.of_nat (length W))%Z /\ (forall e, In e W' -> In e W).
+Proof. exact phases_measure. Qed.
+
+Theorem C12_eventually_partial : forall locs,
+  (forall l1 l2, In l1 locs -> In l2 locs -> lv_name l1 = lv_name l2 -> l1 = l2) ->
+  (forall l cap, In l locs -> lv_cap l = Some cap -> wfr cap /\ In "/" (mounts cap)) ->
+  forall st W H st' W' k, phases_seq st W H st' W' k -> forall pre jw l cap reqs rq chosen,
+  (k >= 1)%nat -> conformant locs init (pre ++ H) -> run init pre = Ok st -> nact st' = 0%Z ->
+  In l locs -> lv_cap l = Some cap -> lookup (req_key l) reqs = Some rq ->
+  (cores rq <= cores cap)%Z -> (mem rq <= mem cap)%Z ->
+  (forall p q m, pre ++ H = p ++ q -> In m (mounts rq) ->
+     In m (mounts cap) /\ (measured init p g0 (lv_name l) (MS m) + size_at rq m <= size_at cap m)%Z) ->
+  ~ In (EAttempt jw [[l]] reqs 1 chosen) W'.
+Proof. exact eventually_granted. Qed.
+
+(* the step used by it: in a state where nobody is fireable/running, a request that fits capacity - residue IS valid *)
+Theorem C12_idle_fits_valid : forall locs,
+  (forall l cap, In l locs -> lv_cap l = Some cap -> wfr cap /\ In "/" (mounts cap)) ->
+  forall st G job reqs l cap rq,
+  Inv locs st G -> nact st = 0%Z -> In l locs -> lv_cap l = Some cap -> lookup (req_key l) reqs = Some rq -> wfr rq ->
+  (cores rq <= cores cap)%Z -> (mem rq <= mem cap)%Z ->
+  (forall m, In m (mounts rq) -> In m (mounts cap) /\ (G (lv_name l) (MS m) + size_at rq m <= size_at cap m)%Z) ->
+  level_valid st reqs job l = Ok true.
+Proof. exact idle_fits_valid. Qed.
+
+(* hypotheses met: /s/0 holds 2 of 4 cores while fireable, /s/1 (3 cores) waits; phase 1: /s/0 FIREABLE -> FAILED
+   (du 3), round grants /s/1; phase 2: /s/1 COMPLETED, empty round; idle, nothing pending; measure 1 + 1 = 0 + 0 + 2 *)
+Example C12_eventually_hypotheses_met :
+  conformant hw_locs init (ev_pre ++ ev_H) /\
+  exists st st', run init ev_pre = Ok st /\ phases_seq st [ev_w] ev_H st' [] 2 /\ nact st' = 0%Z /\ nact st = 1%Z.
+Proof. split; [exact ev_conformant|exact ev_phases]. Qed.
+
 (* known finding: after ROLLBACK of /s0/1 nothing is fireable or running, yet /s0/0.9 finds no valid location *)
 Theorem C12_rollback_blocks_refuted :
   exists st, run init rollback_history = Ok st /\ no_active (Ok st) = true /\
@@ -150,7 +227,12 @@ Print Assumptions C12_valid_iff_fits.
 Print Assumptions C12_quiescent_partial.
 Print Assumptions C12_quiescent.
 Print Assumptions C12_reachable_states_satisfy_Inv.
+Print Assumptions C12_quiescent_stacked.
+Print Assumptions C12_reachable_states_satisfy_Inv2.
 Print Assumptions C12_granted_on_release_partial.
 Print Assumptions C12_granted_on_release_exact_partial.
 Print Assumptions C12_granted_are_waiters.
+Print Assumptions C12_phases_measure.
+Print Assumptions C12_eventually_partial.
+Print Assumptions C12_idle_fits_valid.
 Print Assumptions C12_rollback_blocks_refuted.
